@@ -334,7 +334,13 @@ def empty_rule(c, facts, b, g, infn, lead):
     inp = b._input_name(infn)
     from .. import innerval
 
-    EV, _why = innerval.cached(facts, b, Anchors(facts, b))
+    s0 = inner_summary(b, infn)
+    tests0 = [e for e in s0.events if e["e"] == "isempty"]
+    summary_reads_it = bool(tests0) and any(e.get("node") is not None for e in tests0) and not s0.unknown
+    EV = None
+    if not summary_reads_it:
+        # the statements are not of the recognised shape: the inner function is evaluated on scenarios (vlib/innerval.py)
+        EV, _why = innerval.cached(facts, b, Anchors(facts, b))
     if EV is not None:
         dom = False
         if lead is not None:
